@@ -205,6 +205,28 @@ def scenarios_c15(ctx, binpath, count):
         ("fixed-course-nobody-wants", [P("a", [1])], [C("k", 2, 3, (), True), C("l", 0, 3)]),
         ("many-courses-one-participant", [P("a", [7])], [C("k%d" % i, 0, 2) for i in range(12)]),
     ]
+    # (b'') further explicit documents: names of every length with multi-byte characters, a participant listed twice as instructor of one
+    # course / of two courses, top-level tags (format / version) with odd values -- the simple reader ignores the tags
+    long_names = [("\u00e4" * k) + "x" for k in (1, 9, 10, 11, 29, 30, 31, 40, 100)]
+    explicit = [
+        ("long-names", [P(nm, [0]) for nm in long_names], [C(long_names[-1] + long_names[3], 0, 20), C("\U0001F600" * 12, 0, 3)]),
+        ("dup-instructor-in-one-course", [P("a", [0]), P("b", [1]), P("c", [])], [C("k", 0, 3, [2, 2]), C("l", 0, 3)]),
+        ("dup-instructor-in-two-courses", [P("a", [0]), P("b", [1]), P("c", [])], [C("k", 0, 3, [2]), C("l", 0, 3, [2])]),
+        ("dup-instructor-with-choices", [P("a", [0]), P("b", [1, 0])], [C("k", 0, 3, [1, 0, 1]), C("l", 0, 3)]),
+    ]
+    for name, ps, cs in explicit:
+        fp = w("exp_%s.json" % name, json.dumps({"format": "X-coursedata-simple", "version": "1.0", "participants": ps, "courses": cs}, ensure_ascii=False))
+        for extra in ([], ["--print"]):
+            sc.append(("simple:explicit:%s%s" % (name, "+print" if extra else ""), ["--num-threads", "1"] + extra + [fp], None, {"file": fp}))
+    for k, (fmt, ver) in enumerate([("X-coursedata-simple", "1"), ("X-coursedata-simple", "01"), ("X-coursedata-simple", "2.0"), ("X-coursedata-simple", ""),
+                                    ("X-coursedata-simple", 1), ("X-coursedata-simple", None), ("something-else", "1.0"), (None, "1.0.0"), (7, "x.y"),
+                                    ("X-coursedata-simple", "1."), ("X-coursedata-simple", ".0")]):
+        doc = copy.deepcopy(good)
+        doc["format"], doc["version"] = fmt, ver
+        if k % 3 == 2:
+            del doc["format"]
+        fp = w("tag_%02d.json" % k, json.dumps(doc))
+        sc.append(("simple:tags:%r/%r" % (fmt, ver), ["--num-threads", "1", fp], None, {"file": fp}))
     for name, ps, cs in degenerate:
         fp = w("deg_%s.json" % name, json.dumps({"format": "X-coursedata-simple", "version": "1.0", "participants": ps, "courses": cs}))
         for extra in ([], ["--num-threads", "4"], ["--print"], ["--rooms", "3,2"]):
